@@ -703,6 +703,9 @@ def eval_repeat(rp, rng):
 
 
 # ----------------------------------------------------------------------------- whole GMM fit executed by the model
+_GL = [0]
+
+
 def gmmloop_case(rng, tier):
     K, D = int(rng.integers(2, 4)), int(rng.integers(1, 4))
     N = int(rng.integers(3 * K, 3 * K + 6))
@@ -712,9 +715,11 @@ def gmmloop_case(rng, tier):
     lab[:K] = np.arange(K)
     y = mu[lab] + rng.normal(size=(N, D))
     init = mm.make_init(rng, K, N, (), ['positive', 'dirichlet'][int(rng.integers(0, 2))])
-    rp = {'fn': 'gmmloop', 'y': y, 'init': init, 'iterations': n}
-    return _mk(rp, 'whole GMM fit (diagonal) executed by the model K=%d D=%d N=%d iterations=%d' % (K, D, N, n), True, rng,
-               kind='gmmloop')
+    _GL[0] += 1
+    ct = ['diagonal', 'spherical'][_GL[0] % 2]
+    rp = {'fn': 'gmmloop', 'y': y, 'init': init, 'iterations': n, 'covariance_type': ct}
+    return _mk(rp, 'whole GMM fit (%s) executed by the model K=%d D=%d N=%d iterations=%d' % (ct, K, D, N, n), True, rng,
+               kind='gmmloop/' + ct)
 
 
 def eval_gmmloop(rp, rng):
@@ -722,7 +727,8 @@ def eval_gmmloop(rp, rng):
     y, init, n = np.array(rp['y']), np.array(rp['init']), rp['iterations']
     K, N = init.shape
     D = y.shape[-1]
-    model = GMMTrainer().fit(y, initialization=init, iterations=n, covariance_type='diagonal')
+    ct = rp.get('covariance_type', 'diagonal')
+    model = GMMTrainer().fit(y, initialization=init, iterations=n, covariance_type=ct)
     post = model.predict(y)
     # independent NumPy run of the documented alternation
     g = init
@@ -735,12 +741,20 @@ def eval_gmmloop(rp, rng):
         den = np.maximum(g.sum(-1), TINY)
         mean = (g @ y) / den[:, None]
         var = np.einsum('kn,knd->kd', g, (y[None] - mean[:, None]) ** 2) / den[:, None]
+        if ct == 'spherical':
+            var = np.repeat(var.mean(-1, keepdims=True), D, axis=-1)       # pooled over the coordinates
+    icov = np.asarray(model.gaussian.covariance)
+    if ct == 'spherical':
+        if icov.shape != (K,):
+            return 'spherical GMM covariance has shape %s, documented (K,)' % (icov.shape,), 'gmmloop:shape', None
+        icov = np.repeat(icov[:, None], D, axis=-1)
     if np.abs(model.weight - w).max() > 1e-7 or np.abs(model.gaussian.mean - mean).max() > 1e-7 * max(1, np.abs(mean).max()) \
-            or np.abs(model.gaussian.covariance - var).max() > 1e-7 * np.abs(var).max():
+            or np.abs(icov - var).max() > 1e-7 * np.abs(var).max():
         return 'GMMTrainer.fit(iterations=%d) is not %d alternations of the documented M- and E-steps' % (n, n), 'gmmloop:alternation', None
-    coq = 'check_gmm_fit %d %d %d %d %s %s %s %s %s %s %s %s' % (
+    coq = '%s %d %d %d %d %s %s %s %s %s %s %s %s' % (
+        'check_gmm_fit_sph' if ct == 'spherical' else 'check_gmm_fit',
         K - 1, D, N, n, core.fhex(TINY), core.fhex(1e-10), core.fmat(y), core.fmat(init),
-        core.flist(np.asarray(model.weight).reshape(-1)), core.fmat(model.gaussian.mean), core.fmat(model.gaussian.covariance),
+        core.flist(np.asarray(model.weight).reshape(-1)), core.fmat(model.gaussian.mean), core.fmat(icov),
         core.fmat(post))
     return None, None, coq
 
@@ -777,7 +791,13 @@ def _mk(rp, name, nontrivial, rng, kind=None):
         zero_in = any(isinstance(v, np.ndarray) and v.ndim >= 2 and np.iscomplexobj(v) and bool((np.abs(v).sum(-1) == 0).any())
                       for v in list(rp.values()) + (list(rp['data'].values()) if isinstance(rp.get('data'), dict) else []))
         zero_q = isinstance(rp.get('q'), np.ndarray) and bool((np.array(rp['q']) == 0).any())
-        if core.deliberate_exception(e) and (zero_in or zero_q):
+        few = False
+        if rp['fn'] == 'gauss' and rp.get('s') is not None:
+            # fewer than D + 1 observations with weight in some slice: outside the quantifier (N > D observations); sklearn's
+            # covariance routine refuses the singular class covariance with an explicit ValueError
+            sv = np.asarray(rp['s'], dtype=float)
+            few = bool(((sv > 0).sum(-1) <= np.array(rp['y']).shape[-1] + 1).any())
+        if core.deliberate_exception(e) and (zero_in or zero_q or few):
             # silent frames / zero quadratic forms: the trainers assert finiteness on purpose (s/q overflows)
             fail, key, coq = None, None, None
         else:
